@@ -6,6 +6,7 @@ import (
 	"encoding/json"
 	"fmt"
 	"net/url"
+	"os"
 	"sort"
 	"strconv"
 	"strings"
@@ -228,7 +229,7 @@ func (w *World) ExecOps(supis []string, ops []Op, snapFrom int, withGor bool) *H
 		st.Supi = supi
 		var se *Sess
 		ref := op.Ref
-		if ref == "" && op.K != "create" && op.K != "recharge" && op.S < len(h.Sess) {
+		if ref == "" && op.K != "create" && op.K != "recharge" && op.K != "fill" && op.K != "http" && op.S < len(h.Sess) {
 			se = h.Sess[op.S]
 			ref = se.Ref
 			if op.Supi == "" {
@@ -256,6 +257,17 @@ func (w *World) ExecOps(supis []string, ops []Op, snapFrom int, withGor bool) *H
 					LastGrant: map[int32]int32{}, CID: op.CID, CreatedAt: i})
 				se = h.Sess[len(h.Sess)-1]
 			}
+		case "fill":
+			// macro operation: Amt creates for the filler subscriber (advances the global record counter)
+			for k := 0; k < int(op.Amt); k++ {
+				fo := mkCreate(op.U, fmt.Sprintf("f%d", len(h.Sess)))
+				r := w.Do("POST", ccBase+"/chargingdata", fo.Request(supi), nil)
+				st.Resp = r
+				if r.Code == 201 {
+					h.Sess = append(h.Sess, &Sess{U: op.U, Supi: supi, Ref: refOf(r.Location), Cons: fo.Cons, Live: true, LastGrant: map[int32]int32{}, CID: fo.CID, CreatedAt: i})
+				}
+			}
+			se = nil
 		case "update":
 			st.Resp = w.Do("POST", ccBase+"/chargingdata/"+url.PathEscape(ref)+"/update", body, nil)
 		case "release":
@@ -507,6 +519,13 @@ func RunBFS(p *Pool, sp BFSSpec, rep *Report, st *BFSStats) {
 		for i, r := range results {
 			st.Transitions++
 			out, ok := handle(jops[i], r)
+			if os.Getenv("VDEBUG_BFS") != "" {
+				var ks []string
+				for _, o := range jops[i] {
+					ks = append(ks, fmt.Sprintf("%s(u%d,s%d,%q)", o.K, o.U, o.S, o.Cons))
+				}
+				fmt.Fprintf(os.Stderr, "BFS %s d%d %s -> ok=%v finds=%d key=%s\n", sp.Name, depth, strings.Join(ks, " "), ok, len(out.Finds), out.Key)
+			}
 			if !ok {
 				continue
 			}
